@@ -587,6 +587,11 @@ class Inliner:
                             continue
                         # 1. expression-bodied helpers anywhere in the statement's own expressions
                         st = self._subst_expr_helpers(st, cls, helpers)
+                        # 1b. a statement-bodied helper called inside a larger expression that is evaluated unconditionally and first
+                        #     (`if _check(x) == 0:`, `y = f(_helper(x))`) is hoisted into a temporary, which step 2 then inlines
+                        hoisted = self._hoist_helper_calls(st, cls, helpers, (cls, fn.name))
+                        if hoisted:
+                            out.extend(do_block(hoisted))
                         # 2. statement-bodied helper as the whole value of the statement
                         val = getattr(st, "value", None) if isinstance(st, (ast.Assign, ast.AnnAssign, ast.AugAssign, ast.Return, ast.Expr)) else None
                         m = self._match(val, cls, helpers) if isinstance(val, ast.Call) else None
@@ -646,6 +651,64 @@ class Inliner:
                     owner.remove(hfn)
             if not did:
                 return
+
+    def _hoist_helper_calls(self, st, cls, helpers, me):
+        """[tmp = helper(..)] statements for the statement-bodied helper calls of `st` that can be evaluated before the statement
+        without changing anything: the call is the FIRST thing the statement's expression evaluates (leftmost-innermost position, not
+        under and/or right operands, conditional arms, lambdas or comprehensions).  The call is replaced by the temporary in place."""
+        exprs = []
+        if isinstance(st, ast.If):
+            exprs = [("test", st.test)]
+        elif isinstance(st, (ast.Assign, ast.AugAssign, ast.AnnAssign, ast.Return, ast.Expr)) and getattr(st, "value", None) is not None:
+            exprs = [("value", st.value)]
+        out = []
+        for fld, e in exprs:
+            if isinstance(e, ast.Call) and self._match(e, cls, helpers) is not None:
+                continue                   # the whole value: step 2 handles it
+            # walk down the first-evaluated spine
+            node, parent, pfld, pidx = e, None, None, None
+            while True:
+                if isinstance(node, ast.Call):
+                    m = self._match(node, cls, helpers)
+                    if m is not None and m[0] != me and self._expr_body(helpers[m[0]][0]) is None and parent is not None:
+                        self.counter += 1
+                        tmp = "__h%d" % self.counter
+                        asg = ast.copy_location(ast.Assign(targets=[ast.Name(id=tmp, ctx=ast.Store())], value=node), st)
+                        repl = ast.copy_location(ast.Name(id=tmp, ctx=ast.Load()), node)
+                        if pidx is None:
+                            setattr(parent, pfld, repl)
+                        else:
+                            getattr(parent, pfld)[pidx] = repl
+                        out.append(ast.fix_missing_locations(asg))
+                        break
+                    # first evaluated sub-expression of a call: the callee expression, then the first argument
+                    if isinstance(node.func, ast.Attribute):
+                        parent, pfld, pidx, node = node.func, "value", None, node.func.value
+                        continue
+                    if node.args and not isinstance(node.args[0], ast.Starred):
+                        parent, pfld, pidx, node = node, "args", 0, node.args[0]
+                        continue
+                    break
+                if isinstance(node, ast.Compare):
+                    parent, pfld, pidx, node = node, "left", None, node.left
+                    continue
+                if isinstance(node, ast.BinOp):
+                    parent, pfld, pidx, node = node, "left", None, node.left
+                    continue
+                if isinstance(node, ast.UnaryOp):
+                    parent, pfld, pidx, node = node, "operand", None, node.operand
+                    continue
+                if isinstance(node, ast.BoolOp):
+                    parent, pfld, pidx, node = node, "values", 0, node.values[0]
+                    continue
+                if isinstance(node, (ast.Attribute, ast.Subscript)):
+                    parent, pfld, pidx, node = node, "value", None, node.value
+                    continue
+                if isinstance(node, (ast.Tuple, ast.List)) and node.elts and not isinstance(node.elts[0], ast.Starred):
+                    parent, pfld, pidx, node = node, "elts", 0, node.elts[0]
+                    continue
+                break
+        return out
 
     def _subst_expr_helpers(self, st, cls, helpers):
         inl = self
